@@ -10,7 +10,7 @@ TRUSTED = ["CPython set iteration order for qubit indices < 8 (reindex_qubits zi
 ASSUMPTIONS = ["cirq/sympy simulators and translators of other packages are only exercised as read-only observers"]
 
 CLAIM = {
- "text": "Proof (Lean 4): the metadata invariant (counts, per-arity counts, variational list, used qubits within the index set, index set strictly increasing, fixed-width bound) is proved to hold initially and to be preserved by every modelled operation, hence after every finite history; rejected add_gate and read-only operations are proved to leave the store unchanged in the model; gate-construction rejection rules are proved complete; width: after every finite history every qubit a gate touches is below the reported width (reachable_used_lt_width), a circuit built with n_qubits = n > 0 reports width n whatever its gates (width_ofGates_fixed), and without n_qubits the width is one more than the largest qubit index in the gate list, 0 for no gates (width_ofGates_free). The model is hand-written from circuit.py/gate.py and tied to the code by a state-machine correspondence check that replays random histories (valid and malformed operations) on real Tangelo circuits and on the compiled model and diffs every stored circuit after every operation; gate-name tables are regenerated from /repo each run.",
+ "text": "Proof (Lean 4): the metadata invariant (counts, per-arity counts, variational list, used qubits within the index set, index set strictly increasing, fixed-width bound) is proved to hold initially and to be preserved by every modelled operation, hence after every finite history; rejected add_gate and read-only operations are proved to leave the store unchanged in the model; gate-construction rejection rules are proved complete, and proved to look at the upper-cased name only (mk?_spelling: two spellings of one name are accepted or rejected alike, with the same stored gate); width: after every finite history every qubit a gate touches is below the reported width (reachable_used_lt_width), a circuit built with n_qubits = n > 0 reports width n whatever its gates (width_ofGates_fixed), and without n_qubits the width is one more than the largest qubit index in the gate list, 0 for no gates (width_ofGates_free). The model is hand-written from circuit.py/gate.py and tied to the code by a state-machine correspondence check that replays random histories (valid and malformed operations) on real Tangelo circuits and on the compiled model and diffs every stored circuit after every operation; gate-name tables are regenerated from /repo each run.",
  "note": "Trusted: Lean kernel + propext/Classical.choice/Quot.sound; table extractor; correspondence harness (sampled: bounds what is seen of code = model); CPython set order for qubit indices < 8. Not modelled: object identity beyond the store, cirq/sympy internals (used only as read-only observers), float rounding inside == (decisions within 1e-9 of a discontinuity are discarded and counted).",
  "technique": "Lean 4 invariant-by-induction over operation histories + state-machine correspondence (differential) check"}
 
